@@ -81,29 +81,3 @@ fn probe_c() {
     kani::cover!(r.is_none(), "swap failed");
 }
 
-// quick-tier candidate: whole swap, lean: long token in, no fees, no OI, no VI; pools + impact factors + prices symbolic
-#[kani::proof]
-#[kani::unwind(1)]
-fn probe_q() {
-    let mut m: VMarket<u8, 1> = VMarket::default();
-    m.usd_to_amount_divisor = 1;
-    m.max_pool_amount_long = 255;
-    m.max_pool_amount_short = 255;
-    m.pnl_deposit_long = 10;
-    m.pnl_deposit_short = 10;
-    m.pnl_withdrawal_long = 10;
-    m.pnl_withdrawal_short = 10;
-    m.reserve_factor = 10;
-    m.oi_reserve_factor = 10;
-    m.max_oi_long = 255;
-    m.max_oi_short = 255;
-    m.primary = sym::pool();
-    m.swap_impact = sym::pool();
-    m.swap_impact_exponent = 10;
-    m.swap_impact_positive = kani::any();
-    m.swap_impact_negative = kani::any();
-    let p = prices((1, 1), sym::price_u8(), sym::price_u8());
-    let r = check_swap(&mut m, true, kani::any(), p, true, false);
-    kani::cover!(r.is_none(), "swap failed");
-    kani::cover!(matches!(r, Some((_, i, d)) if i > 0 && d > 0), "capped positive impact");
-}
